@@ -41,6 +41,10 @@ type engRunner struct {
 	nrun int
 	// clockAhead: applied to every scenario run while set (late-clock families)
 	clockAhead time.Duration
+	// coarseMtime: applied to every scenario run while set (coarse-mtime families)
+	coarseMtime time.Duration
+	// compactionOwned: the runner is C07's - see run()
+	compactionOwned bool
 	// which call kinds overlapped / pre-emption coverage
 }
 
@@ -104,6 +108,10 @@ func (e *engRunner) run(sc *eng.Scenario, family string, idx int) *eng.Result {
 		sc.ClockAhead = e.clockAhead
 		sc.Name = "late clock (every file looks decades old): " + sc.Name
 	}
+	if e.coarseMtime != 0 && sc.CoarseMtime == 0 {
+		sc.CoarseMtime = e.coarseMtime
+		sc.Name = "coarse time stamps (all files carry the same mtime): " + sc.Name
+	}
 	res := e.lab.Run(sc, "run")
 	r.Evaluations++
 	if res.SetupErr != nil {
@@ -161,9 +169,37 @@ func (e *engRunner) run(sc *eng.Scenario, family string, idx int) *eng.Result {
 			// in a crash run, a lost/partial transaction or an unopenable directory also refutes C06
 			props = append(append([]string{}, props...), "C06")
 		}
+		if e.compactionOwned && !hasProp(props, "C07") && onlyCompactions(sc.Scripts[0]) && lostDataSig(v.Sig) {
+			// process 0 ran nothing but compactions: committed data that became
+			// unreadable or changed was changed by a compaction (C07), whatever else it breaks
+			props = append(append([]string{}, props...), "C07")
+		}
 		r.Violate(props, v.Sig, v.Msg, ec)
 	}
 	return res
+}
+
+func onlyCompactions(script []eng.Call) bool {
+	n := 0
+	for _, c := range script {
+		switch c.Kind {
+		case "compactall", "autocompact", "compactexpiry", "compactrange":
+			n++
+		case "open", "reopen", "read", "fresh":
+		default:
+			return false
+		}
+	}
+	return n > 0
+}
+
+func lostDataSig(sig string) bool {
+	for _, p := range []string{"final-open-failed", "final-state-differs", "list-names-missing-table", "listed-table-removed", "listed-table-unreadable", "listed-table-malformed", "open-failed"} {
+		if strings.HasPrefix(sig, p) {
+			return true
+		}
+	}
+	return false
 }
 
 // ---- scenario vocabulary -----------------------------------------------------------
@@ -482,6 +518,7 @@ func RunC04(c *Ctx) {
 	}
 	idx = e.explicitRanges(idx, false)
 	idx = e.lateClockPairs(idx, cases, c.N(19, 5), false)
+	idx = e.coarseMtimePairs(idx, cases, c.N(13, 4), false)
 	// I/O errors: a call failed by an injected error takes effect entirely or not at
 	// all, a call that still returns nil has committed exactly its transaction
 	idx = e.faultFamilies(idx, false, "", 3)
